@@ -26,11 +26,15 @@ Half == Q(1, 2)
 RECURSIVE HalfPow(_)
 HalfPow(k) == IF k = 0 THEN ROne ELSE RMul(Half, HalfPow(k - 1))
 
-CVals == {R(2), Q(3, 2), R(3)}
+\* thorough tier: Deep <- DeepOn in the cfg (larger shocks, a surprise in every period, more initial conditions)
+Deep == FALSE
+DeepOn == TRUE
+CVals == {R(2), Q(3, 2), R(3)} \cup (IF Deep THEN {R(1), R(4)} ELSE {})
 EOfC(c) == RSub(RSub(RDiv(R(6), c), c), ROne)
 \* c paths over 1..TN with at most two periods away from the steady value 2
-CPaths == {p \in [1..TN -> CVals] : Cardinality({t \in 1..TN : p[t] # R(2)}) \in 1..2}
-XShocks == {[t \in 1..TN |-> RZero], [t \in 1..TN |-> IF t = 1 THEN R(1) ELSE RZero], [t \in 1..TN |-> IF t = 2 THEN R(-2) ELSE IF t = 3 THEN Half ELSE RZero]}
+CPaths == {p \in [1..TN -> CVals] : Cardinality({t \in 1..TN : p[t] # R(2)}) \in 1..(IF Deep THEN 3 ELSE 2)}
+XShocks == (IF Deep THEN {[t \in 1..TN |-> R(t - 2)], [t \in 1..TN |-> IF t = 3 THEN R(5) ELSE RZero], [t \in 1..TN |-> Q(t, 3)]} ELSE {}) \cup
+           {[t \in 1..TN |-> RZero], [t \in 1..TN |-> IF t = 1 THEN R(1) ELSE RZero], [t \in 1..TN |-> IF t = 2 THEN R(-2) ELSE IF t = 3 THEN Half ELSE RZero]}
 
 \* ---- T1 -------------------------------------------------------------------------------------------------
 RECURSIVE X1(_, _, _)
@@ -59,8 +63,8 @@ SrcT3 == << "!transition_variables", "x", "!transition_shocks", "e", "!transitio
             "x = 1 + (2/5)*(x{-1} - 1) + (1/10)*log(x{+2}) + (1/20)*(x{+1}^2 - 1) + e;" >>
 T3Profiles == { <<{}, {<<1, Q(1, 10)>>}>>, <<{<<1, Q(1, 10)>>}, {}>>, <<{<<1, Q(1, 10)>>, <<2, Q(-1, 20)>>}, {}>>,
                 <<{<<2, Q(1, 10)>>, <<3, Q(1, 10)>>}, {<<3, Q(1, 20)>>}>>, <<{<<3, Q(-1, 10)>>}, {<<1, Q(1, 10)>>, <<2, Q(1, 10)>>}>> }
-Init == /\ sc \in [model : {"T1"}, mode : {"ant", "unant"}, x0 : {R(2), R(4)}, e : XShocks]
-                \cup [model : {"T2"}, mode : {"ant", "unant"}, z0 : {RZero, R(1)}, c : CPaths]
+Init == /\ sc \in [model : {"T1"}, mode : {"ant", "unant"}, x0 : {R(2), R(4)} \cup (IF Deep THEN {RZero, Q(-3, 2)} ELSE {}), e : XShocks]
+                \cup [model : {"T2"}, mode : {"ant", "unant"}, z0 : {RZero, R(1)} \cup (IF Deep THEN {Q(-1, 2)} ELSE {}), c : CPaths]
                 \cup [model : {"T3"}, x0 : {ROne, Q(6, 5)}, ua : T3Profiles]
         /\ out = <<>> /\ done = FALSE
 Compute == /\ ~done /\ done' = TRUE /\ UNCHANGED sc
